@@ -37,9 +37,10 @@ THEOREMS = [
     "cov_positive_semidefinite", "cov_eigenvalues_nonneg", "selected_column_is_top", "selected_column_sorted", "selection_max_or_tie",
     "longest_axis_follows", "boxCloud_eigOut", "eigOut_of_orthonormal", "longest_axis_follows_orthonormal",
     "strict_max_follows", "longest_axis_follows_final",
+    "vnormalize_unit", "longestAxis_is_selected_column", "reported_longest_axis_follows",
     "rotation_matrix_is_rot", "reflection_matrix_is_refl", "closed_antisym_sum_zero",
 ]
-GEN = ["Geometry", "GateConsts"]      # GateConsts: which tests initialize_cell_properties(true) contains (hypotheses of orient_consistent)
+GEN = ["Geometry", "GateConsts", "NodeNormals"]      # GateConsts: which tests initialize_cell_properties(true) contains (hypotheses of orient_consistent)
 EPS = 2.0 ** -53
 HARNESS = os.path.join(vlib.VERIF, "harness", "h_geometry.cpp")
 
